@@ -55,7 +55,7 @@ def write(prop: str, tier: str, seed: int, coverage: dict, wall_s: float, violat
     d = os.path.join(VERIF_DIR, "evidence")
     os.makedirs(d, exist_ok=True)
     path = os.path.join(d, f"{prop}.json")
-    tmp = path + ".tmp"
+    tmp = f"{path}.{os.getpid()}.tmp"
     with open(tmp, "w", encoding="utf-8") as fp:
         json.dump(doc, fp, indent=1, sort_keys=True, ensure_ascii=True)
         fp.write("\n")
